@@ -402,8 +402,17 @@ impl RevRef {
 	}
 	/// ReversalSignal = lower - upper
 	pub fn signal(&mut self, x: Ap) -> Sig {
-		let (u, l) = self.next(x);
+		let (u, l) = self.next_net(x);
 		Sig::from_tri(l, u)
+	}
+	/// (upper, lower) as the combined ReversalSignal = lower - upper sees them: when both halves fire on one step (possible only
+	/// for position 0, where the seed can be the maximum and the first value the minimum, or vice versa) they cancel
+	pub fn next_net(&mut self, x: Ap) -> (Tri, Tri) {
+		match self.next(x) {
+			(Tri::Yes, Tri::Yes) => (Tri::No, Tri::No),
+			(Tri::Yes, Tri::Maybe) | (Tri::Maybe, Tri::Yes) => (Tri::Maybe, Tri::Maybe),
+			x => x,
+		}
 	}
 }
 
@@ -566,6 +575,13 @@ impl RefI for Awesome {
 		let s = src(c, self.source);
 		let value = self.ma2.next(s) - self.ma1.next(s);
 		let (up, lo) = self.rev.next(value);
+		// ReversalSignal = lower - upper: when both halves fire on one step (possible only for position 0, where the seed can be
+		// the maximum and the first value the minimum) they cancel and nothing is counted
+		let (up, lo) = match (up, lo) {
+			(Tri::Yes, Tri::Yes) => (Tri::No, Tri::No),
+			(Tri::Yes, Tri::Maybe) | (Tri::Maybe, Tri::Yes) => (Tri::Maybe, Tri::Maybe),
+			x => x,
+		};
 		// r > 0 at a trough (lower fires), r < 0 at a peak
 		let r = Sig::from_tri(lo, up);
 		let bump = |cnt: &mut Option<i64>, t: Tri| match t {
@@ -1710,7 +1726,7 @@ impl RefI for TrendStrength {
 		let under = self.cu.under(value, Ap::exact(self.zone));
 		let above = self.ca.above(value, Ap::exact(-self.zone));
 		let s0 = Sig::from_tri(under, above);
-		let (up, lo) = self.rev.next(value);
+		let (up, lo) = self.rev.next_net(value);
 		let past = at(self.offset);
 		// reverse = lower - upper; r < 0 at a peak of the value, r > 0 at a trough; compared against the *source* window
 		let upper_sig = up.and(Tri::from(past >= self.zone));
